@@ -27,9 +27,11 @@ def generate(rng, tier):
         us = cred(rng); U = pyref.normalize(us).encode()
         v = rng.choice(vs) if rng.random() < 0.5 else rng.randrange(1, N)
         A = rng.choice(As) if rng.random() < 0.6 else pyref.le(special32(rng))
-        A32 = A.to_bytes(32, "little")
         salt, b, chal = special32(rng), special32(rng), rbytes(rng, 16)
         if pyref.server_B(v, pyref.le(b)) == 0: continue
+        if rng.random() < 0.08:
+            A = pyref.server_B(v, pyref.le(b))          # the peer has seen B before it sends A: it can send it back
+        A32 = A.to_bytes(32, "little")
         m1 = rbytes(rng, 20) if rng.random() < 0.8 else rng.choice([bytes(20), b"\xff" * 20, bytes(19) + b"\x01", b"\x01" + bytes(19)])   # constant proofs too
         from props.c02 import server_expect
         cs.append(Case("srv.server %s %s %s %s %s | %s%s" % (enc(us), le32(v).hex(), salt.hex(), A32.hex(), m1.hex(), b.hex(), chal.hex()), "server-adversarial-A-M1", no_panic))
